@@ -172,17 +172,24 @@ def get_code(thing: object, *nested_names: str) -> types.CodeType:
         # additional scope that holds its type parameters.
         # If the name is defined more than once (typing.overload stubs
         # followed by the implementation, say), the last definition is
-        # the one that the name ends up bound to.
+        # the one that the name ends up bound to: the last in the source,
+        # that is, which is not always the last that was compiled (the
+        # body of a 'finally' clause is compiled where the 'try' body
+        # returns early, before the rest of that body).
         found: Optional[types.CodeType] = None
+        candidates = []
         for const in code.co_consts:
             if not isinstance(const, types.CodeType):
                 continue
             if const.co_name == name:
-                found = const
+                candidates.append(const)
             elif const.co_name == f"<generic parameters of {name}>":
                 for inner in const.co_consts:
                     if isinstance(inner, types.CodeType) and inner.co_name == name:
-                        found = inner
+                        candidates.append(inner)
+        for candidate in candidates:
+            if found is None or candidate.co_firstlineno >= found.co_firstlineno:
+                found = candidate
         if found is None:
             raise ValueError(
                 f"Couldn't find a function or class named {name!r} in "
